@@ -21,8 +21,14 @@ string and EVERY private-key byte string that deserialisation accepts:
 P3 and P4 together give into_bytes(try_from_bytes(b)) = b for every accepted b: try_from_bytes is
 the precompute of decode(b), into_bytes encodes the inverse precompute, P3 says the two precomputes
 cancel on every decoded coefficient vector, P4 says encode undoes decode.
-Not decided: behavioural equality of a re-deserialised generated key as a struct (the
-precomputes are equal modulo q; representative equality is not shown).
+  P5  the converse direction: the private key's precomputes are the SAME linear functions of
+      (s1, s2, t0) modulo q in key generation and in deserialisation (symbolic runs, every
+      coefficient compared); with C04 K9 (into_bytes of a generated key encodes exactly the sampled
+      s1, s2 / Power2Round's t0, t1), P2 (byte fields) and C11 D6 (public precompute) a generated key
+      and its re-deserialised copy hold the same rho, K, tr and precomputes that agree modulo q; signing
+      and verification use the precomputes only through Montgomery products reduced modulo q, and
+      all range obligations are discharged for both provenances (C13), so they behave identically.
+Not decided: representative-level (bit-identical struct) equality, which the property does not need.
 """
 import os
 import sys
@@ -70,6 +76,9 @@ def main(tier):
         jobs[s + ":b"] = [
             ("%s:sk:roundtrip" % s, n["sk_from_bytes"], dict(LIN, atomize="conversion::bit_unpack", identity="encodings::sk_encode", then=n["sk_into_bytes"])),
         ]
+        # P5: the private key's precomputes as linear maps of (s1, s2, t0), in key generation and in deserialisation
+        jobs[s + ":c"] = [("%s:pre:keygen" % s, n["keygen_from_seed"], dict(LIN, atomize="hashing::rej_bounded_poly|high_low::power2round", dump_lin="1"))]
+        jobs[s + ":d"] = [("%s:pre:from_bytes" % s, n["sk_from_bytes"], dict(LIN, atomize="conversion::bit_unpack", dump_lin="1"))]
     res2, errs2 = aicheck.run_sets(jobs, timeout=6000)
     res, errs = {}, {}
     for s in sets:
@@ -138,6 +147,46 @@ def main(tier):
             ob(ok_len, "P3:roundtrip-total:%s" % kind, {"rule": "P3 the round trip returns an encoding for every accepted input", "set": s, "result": j["partitions"]})
             samples.append({"set": s, "key": kind, "coefficients": 256 * npoly, "exactly_recovered": ip[0]["exact"] if ip else None, "symbols": ip[0]["runs"][:160] if ip else None,
                             "abstract_steps": j["steps"]})
+    # P5
+    for s in sets:
+        P = aicheck.PARAMS[s]
+        k, l = P["k"], P["l"]
+        a, b = res2.get(s + ":c"), res2.get(s + ":d")
+        da = a and a["jobs"][0].get("lin_dump")
+        db = b and b["jobs"][0].get("lin_dump")
+        if not da or not db:
+            vlib.fail_closed(rep, "precompute-run:%s" % s, ((errs2.get(s + ":c") or "") + (errs2.get(s + ":d") or "") or "no linear forms")[-400:])
+            continue
+
+        def norm(nm):
+            base, idx = nm.rsplit("[", 1)
+            idx = int(idx[:-1])
+            fn, ordn = base.rsplit("#", 1)
+            ordn = int(ordn)
+            if fn.endswith("power2round"):
+                # tuple (t1, t0): leaves 0..256k are t1, then t0
+                return ("t1", idx // 256, idx % 256) if idx < 256 * k else ("t0", (idx - 256 * k) // 256, idx % 256)
+            if ordn < l:
+                return ("s1", ordn, idx)
+            if ordn < l + k:
+                return ("s2", ordn - l, idx)
+            return ("t0", ordn - l - k, idx)
+
+        def rows(d, lo, n_):
+            out = []
+            for leaf in d[lo:lo + n_]:
+                out.append(None if leaf is None or leaf[0] != 8380417 else ({norm(nm): c % 8380417 for nm, c in leaf[2]}, leaf[1] % 8380417))
+            return out
+        nsk = 256 * (l + 2 * k)
+        ra, rb = rows(da, 256 * k, nsk), rows(db, 0, nsk)
+        ok5 = len(ra) == len(rb) == nsk and all(x is not None and x == y for x, y in zip(ra, rb))
+        if ok5:
+            # each precompute polynomial depends on exactly its own source polynomial
+            want = [("s1", p) for p in range(l)] + [("s2", p) for p in range(k)] + [("t0", p) for p in range(k)]
+            ok5 = all(len(ra[i][0]) == 256 and {(v, p) for v, p, _ in ra[i][0]} == {want[i // 256]} for i in range(nsk))
+        first = next((i for i, (x, y) in enumerate(zip(ra, rb)) if x != y), None) if not ok5 else None
+        ob(ok5, "P5:same-precompute-maps:sk", {"rule": "P5 the private key's NTT / Montgomery precomputes are the same linear functions of (s1, s2, t0) modulo q in key generation and in deserialisation "
+                                                        "(signing uses them only through Montgomery products reduced modulo q)", "set": s, "coefficients_compared": 256 * nsk, "first_differing_output": first})
     s8, n8 = c08.analyse(rep, ob, ["44", "65", "87"], rules=("R2", "R3", "R4"), prefix="P4:", codecs=("pk", "sk"))
     cov = {
         "obligations": cnt[0], "discharged": cnt[1],
